@@ -11,7 +11,7 @@ peer-table entry per connection - an anonymous or empty announced identity gets 
 reconnecting under the same identity replaces its entry (C04 R04.4, REP backend), both re-evaluated: otherwise one
 client's reply is written to another's connection. Does NOT decide concurrent-client histories (argued from R08.3/R08.4 + C05)."""
 from ..sym import show, walk_expr
-from ..common import short, store_hits, place_text
+from ..common import short, store_hits, place_text, names_type
 from .. import pathq
 from .c07 import socket_coroutine, wire_writes, msg_mutations, is_param_msg
 
@@ -34,7 +34,7 @@ def marker_field(f, ty_suffix):
     def is_opt_id(ty):
         return ty.startswith("std::option::Option<") and "PeerIdentity" in ty
     for p, a in f.adts.items():
-        if p.endswith(ty_suffix):
+        if names_type(p, ty_suffix):
             for fl in a["variants"][0]["fields"]:
                 if is_opt_id(fl["ty"]):
                     return fl["name"]
@@ -115,7 +115,7 @@ def run(ctx, f, rep):
         rep.bad("R08.1", "R08.1|anchor", "ReqSocket::send not found (anchor-missing)")
     else:
         nw = nref = 0
-        for p in pathq.paths(f, co):
+        for p in pathq.paths(f, co, inline_async=True):
             for i, ev in wire_writes(p):
                 nw += 1
                 dec = marker_decisions(p, mreq, ev.ncond)
@@ -161,7 +161,7 @@ def run(ctx, f, rep):
         rep.bad("R08.2", "R08.2|anchor", "ReqSocket::recv not found (anchor-missing)")
     else:
         nnone = 0
-        for p in pathq.paths(f, co):
+        for p in pathq.paths(f, co, inline_async=True):
             dec = marker_decisions(p, mreq)
             if dec and dec[0] is False and p.end == "return":
                 nnone += 1
@@ -184,7 +184,7 @@ def run(ctx, f, rep):
         rep.bad("R08.3", "R08.3|anchor", "RepSocket::send not found (anchor-missing)")
     else:
         nw = nnone = 0
-        for p in pathq.paths(f, co):
+        for p in pathq.paths(f, co, inline_async=True):
             for i, ev in wire_writes(p):
                 nw += 1
                 dec = marker_decisions(p, mrep, ev.ncond)
@@ -208,7 +208,7 @@ def run(ctx, f, rep):
         rep.bad("R08.4", "R08.4|anchor", "RepSocket::recv not found (anchor-missing)")
     else:
         nok = 0
-        for p in pathq.paths(f, co, max_visits=2):
+        for p in pathq.paths(f, co, max_visits=2, inline_async=True):
             if p.end != "return":
                 continue
             st = [s for s in p.events if store_hits(s, mrep)]
